@@ -49,6 +49,8 @@ fn canonical_scenario(p: &Program, variant: u32) -> C12Scenario {
         env,
         cwd,
         clock: CANON_CLOCK,
+        clock_step_ns: 0,
+        cpus: 0,
         pid: CANON_PID,
         schedule: vec![Round { jobs: vec![Job { thread: 0, program: 0, measured: true, perturb: vec![] }], interleave_seed: 0, switch_permille: 0 }],
         expect: None,
@@ -385,6 +387,9 @@ pub fn build_scenarios(seed: u64, programs: &[Program], configs: &[usize], rng: 
             env,
             cwd,
             clock: if rng.chance(1, 2) { CANON_CLOCK } else { rng.range(1, 4_000_000_000) as i64 },
+            // how fast simulated time passes per clock reading, how many CPUs there seem to be
+            clock_step_ns: *rng.pick(&[0i64, 0, 1_000, 1_000_000, 40_000_000, 1_000_000_000, 3_600_000_000_000]),
+            cpus: *rng.pick(&[0u32, 0, 1, 2, 3, 16, 64]),
             pid: if rng.chance(1, 2) { CANON_PID } else { rng.range(2, 4_000_000) as i32 },
             schedule,
             expect: None,
@@ -499,7 +504,11 @@ pub fn minimise(sc: &C12Scenario, viol: &Violation, refs: &mut RefCache, budget:
         match step {
             0 => c.env.clear(),
             1 => c.cwd = "/".into(),
-            2 => c.clock = CANON_CLOCK,
+            2 => {
+                c.clock = CANON_CLOCK;
+                c.clock_step_ns = 0;
+                c.cpus = 0;
+            }
             3 => c.pid = CANON_PID,
             4 => c.threads.iter_mut().for_each(|t| t.readdir_seed = 0),
             5 => c.schedule.iter_mut().for_each(|r| r.jobs.iter_mut().for_each(|j| j.perturb.clear())),
@@ -635,8 +644,11 @@ pub fn dims(sc: &C12Scenario) -> Vec<String> {
     if sc.schedule.iter().any(|r| r.jobs.iter().any(|j| !j.perturb.is_empty())) {
         d.push("io_perturbation".to_string());
     }
-    if sc.clock != CANON_CLOCK {
+    if sc.clock != CANON_CLOCK || sc.clock_step_ns != 0 {
         d.push("clock".to_string());
+    }
+    if sc.cpus != 0 {
+        d.push("cpus".to_string());
     }
     if sc.pid != CANON_PID {
         d.push("pid".to_string());
@@ -652,7 +664,7 @@ pub fn dims(sc: &C12Scenario) -> Vec<String> {
 
 fn final_class(class: &str, sc: &C12Scenario) -> String {
     let d = dims(sc);
-    if !d.is_empty() && d.iter().all(|x| ["clock", "pid", "env", "cwd"].contains(&x.as_str())) {
+    if !d.is_empty() && d.iter().all(|x| ["clock", "pid", "env", "cwd", "cpus"].contains(&x.as_str())) {
         "ambient_read".to_string()
     } else {
         class.to_string()
@@ -696,7 +708,7 @@ pub fn scan_shared_state() -> (usize, Vec<String>) {
                         if l.starts_with("//") {
                             continue;
                         }
-                        let pats = ["static mut ", "thread_local!", "lazy_static", "OnceLock", "OnceCell", "Mutex<", "RwLock<", "Atomic", "UnsafeCell", "unsafe ", "std::thread", "std::time", "SystemTime", "Instant::", "std::env::", "process::id"];
+                        let pats = ["static mut ", "thread_local!", "lazy_static", "OnceLock", "OnceCell", "Mutex<", "RwLock<", "Atomic", "UnsafeCell", "unsafe {", "unsafe fn", "unsafe impl", "std::thread", "std::time", "SystemTime", "Instant::", "std::env::", "process::id"];
                         let is_static = (l.starts_with("static ") || l.starts_with("pub static ")) && !l.contains("&str") && !l.contains("&'static str");
                         if is_static || pats.iter().any(|p| l.contains(p)) {
                             hits.push(format!("{}:{}: {}", p.display(), n + 1, l.chars().take(100).collect::<String>()));
@@ -920,6 +932,8 @@ pub fn run_check(tier_name: &str, seed: u64, verif_dir: &str) -> Outcome {
                     env: BTreeMap::new(),
                     cwd: "/".into(),
                     clock: CANON_CLOCK,
+                    clock_step_ns: 0,
+                    cpus: 0,
                     pid: CANON_PID,
                     schedule,
                     expect: None,
@@ -1091,6 +1105,7 @@ pub fn run_check(tier_name: &str, seed: u64, verif_dir: &str) -> Outcome {
             "faults_fired": {},
             "logical_steps": calls,
             "simulated_time": "0 (nothing in the system waits on a clock); logical_steps counts intercepted libc calls",
+            "cpu_count_calls": results.iter().flat_map(|r| r.jobs.iter()).map(|j| j.cpu_calls as u64).sum::<u64>(),
             "clock_calls": clock_calls, "pid_calls": pid_calls, "cwd_calls": cwd_calls, "foreign_writes": foreign_writes, "jobs_that_wrote_files": write_set_nonempty,
             "runs_per_hour": (evaluations as f64 / wall * 3600.0) as u64,
             "shared_state_constructs": shared_n,
